@@ -148,7 +148,8 @@ class Builder:
 def populate(b, target, others, shape):
     """entities with components in `target` (and some in `others`), contents shaped by `shape`"""
     rng = b.rng
-    n = {"single": 1, "dense": rng.randint(3, 6), "sparse": rng.randint(4, 8), "empty": rng.randint(1, 3)}[shape]
+    n = {"single": 1, "dense": rng.randint(3, 6), "sparse": rng.randint(4, 8), "empty": rng.randint(1, 3),
+         "crowd": rng.randint(33, 44)}[shape]
     hs = []
     for i in range(n):
         if shape == "empty":
@@ -206,6 +207,8 @@ def destroying_op(b, kind, target, others):
         pool = list(b.alive)
         rng.shuffle(pool)
         hs = pool[:max(1, min(len(pool), rng.randint(2, 4)))]
+        if len(pool) >= 33:
+            hs = pool[:rng.randint(32, len(pool))]       # one large batch
         b.op(DELETE_MANY, *hs)
         b.kill(hs)
     elif kind == "delete_many_failing":
@@ -222,6 +225,8 @@ def destroying_op(b, kind, target, others):
         pool = list(b.alive)
         rng.shuffle(pool)
         hs = pool[:max(1, min(len(pool), rng.randint(1, 4)))]
+        if len(pool) >= 33:
+            hs = pool[:rng.randint(32, len(pool))]
         for x in hs:
             b.op(EDELETE, x)
         b.op(MAINTAIN)
@@ -326,6 +331,11 @@ def base_scenarios(rng, tier):
         target = rng.choice(ALL_SIDS)
         h, tpos = scenario(rng, target, kind, rng.choice(["dense", "sparse"]), n_others=rng.randint(3, 6))
         out.append(("cross/%s" % kind, h, tpos))
+    # large batches (more than 32 entities deleted at once, by every batch path)
+    for target in ([0, 1, 4, 6] if tier == "quick" else ALL_SIDS):
+        for kind in ("delete_all", "delete_many", "maintain"):
+            h, tpos = scenario(rng, target, kind, "crowd", n_others=rng.randint(0, 1))
+            out.append(("crowd/%s/%s" % (SID_NAMES[target], kind), h, tpos))
     for _ in range(8 if tier == "quick" else 60):
         for kind in ("add", "clear", "drop"):
             h, tpos = cs_scenario(rng, kind)
